@@ -652,7 +652,12 @@ impl WCtx {
             }
             "pushc" => {
                 let p = self.span(&t[1]);
-                let ls = self.tables.lsets.lock().unwrap().get(&pu(&t[2])).expect("lset").clone();
+                let ls = if t.len() > 3 {
+                    // the only handle: nothing else keeps the set alive
+                    self.tables.lsets.lock().unwrap().remove(&pu(&t[2])).expect("lset")
+                } else {
+                    self.tables.lsets.lock().unwrap().get(&pu(&t[2])).expect("lset").clone()
+                };
                 p.push_child_spans(ls);
                 u()
             }
@@ -868,6 +873,14 @@ impl Orch {
                 WID.with(|w| w.set(t));
                 verif::set_local_id(prefix, suffix);
                 verif::set_stack_capacity(cap);
+                // threads of every age: the scope counter of a fresh thread, of one that has
+                // opened 2^32 scopes, and of one about to wrap
+                verif::set_next_span_line_epoch(match prefix % 4 {
+                    0 => 0,
+                    1 => (1usize << 32) - 2,
+                    2 => (5usize << 32) + 7,
+                    _ => usize::MAX - 1,
+                });
                 verif::register_sender();
                 let ctx = Rc::new(WCtx {
                     id: t,
